@@ -9,8 +9,21 @@ Definition src_dets : list (string * (bytes -> Z -> res bool)) := [
   ("Doc", src_Doc); ("Ppt", src_Ppt); ("Xls", src_Xls); ("Pub", src_Pub); ("Msg", src_Msg); ("Msi", src_Msi);
   ("Xlsx", src_Xlsx); ("Docx", src_Docx); ("Pptx", src_Pptx); ("Jar", src_Jar); ("APK", src_APK)].
 
-Definition src_evals : list (option (bytes -> Z -> res bool)) :=
-  map (fun o => match o with Some (DFunc name) => assoc name src_dets | _ => None end) node_dets.
+(* true: the function walks the input with index-driven loops (each raw[i] costs O(i) on lists), so the correspondence
+   runs it on headers of at most 128 bytes; the theorems about it hold for every input *)
+Definition src_evals : list (option (bool * (bytes -> Z -> res bool))) :=
+  map (fun o => match o with
+                | Some (DFunc name) => match assoc name src_dets with Some f => Some (false, f) | None => None end
+                | Some (DCiPrefix sg) => Some (true, src_ciPrefix sg)
+                | Some (DMarkup sg) => Some (true, src_markup sg)
+                | Some (DXml sg) => Some (true, src_xml sg)
+                | Some (DShebang sg) => Some (true, src_shebang sg)
+                | _ => None
+                end) node_dets.
 
 Definition src_verdicts (raw : bytes) (lim : N) : list (option (res bool)) :=
-  map (fun o => match o with Some f => Some (f raw (Z.of_N lim)) | None => None end) src_evals.
+  let small := (length raw <=? 128)%nat in
+  map (fun o => match o with
+                | Some (costly, f) => if costly && negb small then None else Some (f raw (Z.of_N lim))
+                | None => None
+                end) src_evals.
